@@ -652,8 +652,8 @@ protected:
 			if (0 == v) return f;
 			if constexpr (arithmetic == Saturate) {
 				constexpr fixpnt maxpos(SpecificValue::maxpos), maxneg(SpecificValue::maxneg);
-				// check if we are in the representable range
-				if (v >= static_cast<Arith>(maxpos)) { return maxpos; }
+				// check if we are in the representable range: static_cast<Arith>(maxpos) is the integer part of maxpos, which is representable
+				if (v > static_cast<Arith>(maxpos)) { return maxpos; }
 				if (v <= static_cast<Arith>(maxneg)) { return maxneg; }
 			}
 			constexpr unsigned sizeofInteger = 8 * sizeof(v);
